@@ -235,7 +235,11 @@ impl Recv {
     ) -> Result<u64, TransportError> {
         let prev_end = self.end;
         let new_bytes = offset.saturating_sub(prev_end);
-        if offset > self.sent_max_stream_data || received + new_bytes > max_data {
+        if offset > self.sent_max_stream_data
+            || received
+                .checked_add(new_bytes)
+                .is_none_or(|total| total > max_data)
+        {
             debug!(
                 received,
                 new_bytes,
